@@ -1,4 +1,5 @@
 """C10: every registered connection encoder x imputer is a faithful, total and onto coding of connection sets."""
+import time
 import itertools
 import numpy as np
 from .. import gen, spec as S, build as B, refmodel as R, drive as D, monitor as M
@@ -28,7 +29,7 @@ def mat_t(m):
     return tuple(tuple(int(v) for v in row) for row in m)
 
 
-def check_settings(cs, col, fsel=None, cap=250):
+def check_settings(cs, col, fsel=None, cap=250, budget=6.0):
     import adsg_core.optimization.assign_enc.matrix as mx
     from adsg_core.optimization.assign_enc.lazy_encoding import LazyEncoder
     from adsg_core.optimization.assign_enc.assignment_manager import AssignmentManager, LazyAssignmentManager
@@ -46,7 +47,28 @@ def check_settings(cs, col, fsel=None, cap=250):
     for grp, idx, fac, imp, imp_name in factories():
         if fsel is not None and (grp, idx, imp_name) != tuple(fsel):
             continue
+        try:
+            with common.time_limit(budget * 2.5):
+                if _one_factory(cs, col, pats, refs, grp, idx, fac, imp, imp_name, cap, budget):
+                    nontrivial = True
+        except common.HarnessTimeout:
+            col.count('factory_time_budget_exceeded')
+    if nontrivial:
+        col.nontrivial.add(S.digest(cs))
+        if len(col.samples) < 2:
+            col.sample({'settings': cs, 'matrices_per_pattern': [len(r) for r in refs]})
+
+
+def _one_factory(cs, col, pats, refs, grp, idx, fac, imp, imp_name, cap, budget):
+    import adsg_core.optimization.assign_enc.matrix as mx
+    from adsg_core.optimization.assign_enc.lazy_encoding import LazyEncoder
+    from adsg_core.optimization.assign_enc.assignment_manager import AssignmentManager, LazyAssignmentManager
+    from adsg_core.optimization.assign_enc.patterns.encoder import InvalidPatternEncoder
+    from adsg_core.optimization.assign_enc.encoding import DetectedHighImpRatio
+    nontrivial = False
+    for _once in (1,):
         settings = B.make_settings(cs)
+        t_fac = time.time()
         encoder = fac(imp())
         enc_name = '%s:%s' % (grp, repr(encoder))
         where = {'group': grp, 'encoder': type(encoder).__name__, 'imputer': type(imp()).__name__}
@@ -70,7 +92,10 @@ def check_settings(cs, col, fsel=None, cap=250):
         used_values = [set() for _ in dvs]
         listed_all = None
         try:
-            listed_all = mgr.get_all_design_vectors()
+            if time.time() - t_fac < budget / 2:
+                listed_all = mgr.get_all_design_vectors()
+            else:
+                col.count('listing_skipped_time_budget')
         except Exception as e:  # noqa
             info = D.exc_info(e)
             w = dict(where)
@@ -101,6 +126,10 @@ def check_settings(cs, col, fsel=None, cap=250):
             table = {}
             image = set()
             for x in vecs + hostile:
+                if time.time() - t_fac > budget:
+                    col.count('factory_time_budget_exceeded')   # not a verdict: the rest of this factory is skipped
+                    failed = True
+                    break
                 col.count('monitor_get_matrix_evaluations')
                 try:
                     x1, act, Mx = mgr.get_matrix(np.array(x, dtype=int), existence=existence)
@@ -212,10 +241,7 @@ def check_settings(cs, col, fsel=None, cap=250):
                                   {'encoder': enc_name, 'var': i, 'values': sorted(vs), 'n_opts': n_opts}, [],
                                   where=where, factory=[grp, idx, imp_name])
                     break
-    if nontrivial:
-        col.nontrivial.add(S.digest(cs))
-        if len(col.samples) < 2:
-            col.sample({'settings': cs, 'matrices_per_pattern': [len(r) for r in refs]})
+    return nontrivial
 
 
 def gen_case(seed, i):
@@ -278,7 +304,7 @@ def main(run):
         run.map([{'replay': common.load_replay(run.replay), 'shard': 0}])
     else:
         if run.tier == 'quick':
-            tasks = common.shard_tasks(64, run.jobs, cap=150)
+            tasks = common.shard_tasks(48, run.jobs, cap=60)
         else:
             tasks = common.shard_tasks(1600, 32, cap=400)
             for mode, env in (('boundscheck', {'NUMBA_BOUNDSCHECK': '1'}), ('nojit', {'NUMBA_DISABLE_JIT': '1'})):
